@@ -1,3 +1,4 @@
+import json
 from typing import List, Optional, Tuple
 
 from .base import GenericModelCodeGenerator, KWAGRS_TEMPLATE, sort_kwargs, template
@@ -92,5 +93,5 @@ class PydanticModelCodeGenerator(GenericModelCodeGenerator):
     def _get_field_kwargs(self, name: str, meta: MetaData, optional: bool, data: dict):
         body_kwargs = {}
         if name != data["name"]:
-            body_kwargs["alias"] = f'"{name}"'
+            body_kwargs["alias"] = json.dumps(name, ensure_ascii=False)
         return body_kwargs
